@@ -62,15 +62,19 @@ func suiteArgon(c *Ctx) {
 		mode := i % 3
 		ver := []int{0x10, 0x13}[(i/3)%2]
 		p := lanesPool[c.Rng.Intn(len(lanesPool))]
-		if i%97 == 96 {
-			p = 255
+		if i%6 == 5 {
+			// many lanes: the 8-bit lane count times the 4 sync points crosses 256 at 64 lanes
+			p = []uint8{63, 64, 65, 127, 128, 129, 191, 192, 193, 254, 255}[(i/6)%11]
 		}
 		m := uint32(p) * uint32([]int{8, 8, 9, 12, 16, 33}[c.Rng.Intn(6)])
 		if c.Rng.Intn(3) == 0 {
 			m += uint32(c.Rng.Intn(4*int(p) + 1)) // not a multiple of 4*lanes
 		}
-		if p == 255 {
-			m = 255 * 8
+		if p >= 63 {
+			m = uint32(p) * uint32([]int{8, 8, 9}[c.Rng.Intn(3)])
+			if c.Rng.Intn(2) == 0 {
+				m = uint32(8 + c.Rng.Intn(8*int(p))) // below the 8·lanes minimum: rounded up by Key
+			}
 		}
 		t := uint32(1 + c.Rng.Intn(4))
 		pw := c.randPw(c.Rng.Intn(201), false)
@@ -92,11 +96,9 @@ func suiteArgon(c *Ctx) {
 			}
 		}
 		args := fmt.Sprintf("%d %d %s %s %d %d %d %d", mode, ver, hx(pw), hx(salt), t, m, p, kl)
-		if p < 255 || c.Thorough() {
-			c.Op("argon2key "+args, keys[0])
-			if i%2 == 0 || c.Thorough() {
-				c.Op("argon2rfc "+args, keys[0])
-			}
+		c.Op("argon2key "+args, keys[0])
+		if (i%2 == 0 || c.Thorough()) && m >= 8*uint32(p) {
+			c.Op("argon2rfc "+args, keys[0]) // the RFC reference has no rounding-up rule: only on its own domain
 		}
 		c.NonTrivial(fmt.Sprintf("%d:%d:%d:%d:%d", mode, ver, p, m, t))
 		c.Direct += len(cfgs)
